@@ -87,13 +87,14 @@ def parseFrame (tok : String) : Option CFrame :=
     let fs ← parseFields fields
     let cls := classify fs
     let hp := fs.any Field.isPseudo
-    pure { ev := .cHeaders sid es cls hp, inp := .headers sid es cls hp, tagOK := decide (cls = kind),
+    let head := pseudoValue sMethod fs == sHEAD
+    pure { ev := .cHeaders sid es cls hp, inp := .headers sid es cls hp head (invalidBeforeLastFragment fs nc), tagOK := decide (cls = kind),
            burstSafe := kind == .ok || kind == .mw }
   | ["T", sid, es] => do
     let sid ← parseU32 sid
     let es := es == "1"
     let cls := classify trailerFields
-    pure { ev := .cHeaders sid es cls false, inp := .headers sid es cls false }
+    pure { ev := .cHeaders sid es cls false, inp := .headers sid es cls false false false }
   | ["D", sid, len, es] => do
     let sid ← parseU32 sid
     let n ← len.toNat?
@@ -183,6 +184,16 @@ def insertSorted (k : Nat × Nat × Nat) : List (Nat × Nat × Nat) → List (Na
 
 def sortKeys (ks : List (Nat × Nat × Nat)) : List (Nat × Nat × Nat) := ks.foldr insertSorted []
 
+def showOut : Out → String
+  | .rst s c => s!"rst:{s}:{c}"
+  | .start s => s!"hs:{s}"
+  | .goaway c => s!"ga:{c}"
+  | .closed => "closed"
+  | .settingsAck => "sa"
+  | .pingAck d => s!"pa:{d}"
+
+def showOuts (os : List Out) : String := "[" ++ ",".intercalate (os.map showOut) ++ "]"
+
 def isPingAck : Out → Bool
   | .pingAck _ => true
   | _ => false
@@ -191,6 +202,15 @@ def isPingAck : Out → Bool
 def outsAgree (pred obs : List Out) : Bool :=
   sortKeys (pred.map outKey) == sortKeys (obs.map outKey) &&
     pred.filter isPingAck == obs.filter isPingAck
+
+/-- `obs` is a sub-multiset of `pred` -/
+def subOuts : List Out → List Out → Bool
+  | _, [] => true
+  | pred, o :: rest => pred.contains o && subOuts (pred.erase o) rest
+
+def isGoaway : Out → Bool
+  | .goaway _ => true
+  | _ => false
 
 /-- the accounting model under a non-reading client: outputs are withheld. -/
 def applyIn (st : St) (i : In) : St × List Out :=
@@ -234,8 +254,13 @@ def Walk.monEv (w : Walk) (e : Ev) : Walk :=
 def Walk.closeSegment (w : Walk) (wbv : Option (Nat × Nat × Nat)) : Walk :=
   let w :=
     if w.err.isSome || !w.st.exact then w
+    else if w.st.srv.dead then
+      -- the connection error of this segment: frames queued before it may or may not have been
+      -- written (the GOAWAY overtakes whatever is still in the write scheduler)
+      if w.pred.filter isGoaway == w.obs.filter isGoaway && subOuts w.pred w.obs then w
+      else { w with err := some s!"reject accounting: predicted {showOuts w.pred} ⊇ observed {showOuts w.obs}" }
     else if !outsAgree w.pred w.obs then
-      { w with err := some s!"reject accounting: predicted {repr w.pred} observed {repr w.obs}" }
+      { w with err := some s!"reject accounting: predicted {showOuts w.pred} observed {showOuts w.obs}" }
     else match wbv with
       | some (a, b, c) =>
         let s := w.st.srv
@@ -307,15 +332,16 @@ def step (st : St) (line : String) : St × String :=
     | some frames =>
       if frames.length > 1 && (frames.any (fun f => !f.burstSafe)) then (st, "bad-op")
       else match frames.find? (fun f => !f.tagOK) with
-        | some f => (st, s!"reject tag: the model classifies {repr f.ev} differently from the generator's intent")
+        | some f => (st, s!"reject tag: the model classifies a request differently from the generator's intent")
         | none => runLine st (frames.map (·.ev)) [frames.map (·.inp)] obs
   | ["h", cmd, sid] =>
     if !st.started || sid.toNat?.isNone || !(["write", "flush", "fin", "panic"].contains cmd) then (st, "bad-op") else
-    let (st', r) := runLine st [] [[]] obs
     -- `skip` must be recorded exactly when the model has no running user handler for the stream
     let sidN := sid.toNat?.getD 0
     let skipObs := obs.contains "skip"
     let skipPred := st.blocked || !st.srv.running.contains sidN
+    let ins : List In := if !skipPred && (cmd == "write" || cmd == "flush") then [.handlerWrite sidN] else []
+    let (st', r) := runLine st [] [ins] obs
     if r == "ok" && st.exact && !st.srv.closed && skipObs ≠ skipPred then
       (st', s!"reject accounting: handler command skipped={skipObs}, model says running={!skipPred}")
     else (st', r)
